@@ -314,7 +314,7 @@ class Caps:
         return None, None
 
 
-def analyse(fn, roles, prog, lib_roles=None, want_kinds=("W", "R")):
+def analyse(fn, roles, prog, lib_roles=None, want_kinds=("W", "R"), callsite_goals=None):
     """returns (obligations, info).  obligation: dict(kind, what, line, root, role, off, size, cap, lo, hi, dead, ordinal)"""
     A = Analysis(fn)
     caps = Caps(fn, roles, prog)
@@ -489,7 +489,7 @@ def analyse(fn, roles, prog, lib_roles=None, want_kinds=("W", "R")):
     res = []
     counters = {}
 
-    def check(blk, what, line, root, off, size, kind):
+    def check(blk, what, line, root, off, size, kind, zero_fill=False):
         if kind not in want_kinds:
             return
         cap, role = caps.cap(root)
@@ -504,8 +504,13 @@ def analyse(fn, roles, prog, lib_roles=None, want_kinds=("W", "R")):
             dead = True
         ck = (kind, what, role)
         counters[ck] = counters.get(ck, 0) + 1
-        res.append(dict(fn=fn.name, line=line, kind=kind, what=what, root=root, role=role, off=repr(off), size=repr(size), cap=repr(cap),
-                        lo=bool(lo), hi=bool(hi), dead=dead, ordinal=counters[ck], const_index=off.is_const()))
+        rec = dict(fn=fn.name, line=line, kind=kind, what=what, root=root, role=role, off=repr(off), size=repr(size), cap=repr(cap),
+                   lo=bool(lo), hi=bool(hi), dead=dead, ordinal=counters[ck], const_index=off.is_const())
+        if zero_fill:
+            # slack clearing must end exactly at the end of the declared destination: off + size == cap
+            rec["zero_fill"] = True
+            rec["ends_at_cap"] = bool(entails_split(fn, A, F, off + size - cap, hdr_atoms, blk, 0, lf))
+        res.append(rec)
 
     for b in fn.j["blocks"]:
         for i in b["insts"]:
@@ -516,6 +521,17 @@ def analyse(fn, roles, prog, lib_roles=None, want_kinds=("W", "R")):
                 check(b["id"], op, i.get("line"), root, off, Lin.const(i["size"]), "R" if op == "load" else "W")
             elif op in ("call", "invoke"):
                 cal = i.get("callee") or ""
+                if callsite_goals and cal in callsite_goals and prog.resolve(fn, cal) is not None:
+                    for (ai, bound) in callsite_goals[cal]:
+                        if ai < len(i.get("args", ())):
+                            v = A.lin(i["args"][ai])
+                            F = facts_at(b["id"])
+                            okb = entails_split(fn, A, F, Lin.const(bound) - v, hdr_atoms, b["id"], 0, lambda bb: live_facts(bb, cands))
+                            srcp = None
+                            if len(v.t) == 1 and v.c == 0 and list(v.t.values())[0] == 1 and list(v.t)[0] in fn.params:
+                                srcp = fn.param_index(fn.params[list(v.t)[0]]["name"])
+                            res.append(dict(fn=fn.name, line=i.get("line"), kind="U", what="call %s arg %d <= %d" % (cal, ai, bound), root="-", role="-", off=repr(v), size="-",
+                                            cap=str(bound), lo=True, hi=bool(okb), dead=False, ordinal=0, const_index=False, callee=cal, arg=ai, from_param=srcp))
                 effs = []
                 if cal in LIB_EFFECTS:
                     effs = [(k, pa, ("arg", la, u)) for (k, pa, la, u) in LIB_EFFECTS[cal]]
@@ -562,7 +578,41 @@ def analyse(fn, roles, prog, lib_roles=None, want_kinds=("W", "R")):
                             continue
                     else:
                         continue
-                    check(b["id"], "call " + cal, i.get("line"), root, off, size, k)
+                    zf = False
+                    if k == "W" and (cal.startswith("llvm.memset") or cal in ("memset", "wmemset")) and len(i["args"]) > 1:
+                        v = i["args"][1]
+                        zf = v.get("k") == "c" and v["v"] == 0
+                    check(b["id"], "call " + cal, i.get("line"), root, off, size, k, zero_fill=zf)
+    # ---- zeroing loops: a loop whose only stores put the constant 0 through a cursor into a caller buffer must run to the end of that buffer
+    for h, L in fn.loops.items():
+        stores = [i for bid in L["blocks"] for i in fn.blocks[bid]["insts"] if i["op"] == "store"]
+        if not stores or any(not (i["ops"][0].get("k") == "c" and i["ops"][0]["v"] == 0) for i in stores):
+            continue
+        if any(i["op"] in ("call", "invoke") and not (i.get("callee") or "").startswith("llvm.dbg") for bid in L["blocks"] for i in fn.blocks[bid]["insts"]):
+            continue
+        ptrs = set()
+        for i in stores:
+            root, off = A.ptr(i["ops"][1])
+            ptrs.add((root, repr(off)))
+        if len(ptrs) != 1:
+            continue
+        root, _ = A.ptr(stores[0]["ops"][1])
+        cap, role = caps.cap(root)
+        if cap is None or role.startswith(("local:", "global:")):
+            continue
+        off = A.ptr(stores[0]["ops"][1])[1]
+        if not any(a in hdr_atoms for a in off.atoms()):
+            continue
+        t = fn.term(h)
+        exits = [sc for sc in fn.succ[h] if sc not in L["_set"]]
+        for sc in exits:
+            F = normalize_facts(block_exit_facts(fn, A, h, sc), nonneg + live_facts(h, cands) + A.extra) + nonneg + live_facts(h, cands) + A.extra
+            lf = lambda b: live_facts(b, cands)
+            eq = entails_split(fn, A, F, off - cap, hdr_atoms, h, 0, lf) and entails_split(fn, A, F, cap - off, hdr_atoms, h, 0, lf)
+            ck_ = ("S", "zeroing loop", role)
+            counters[ck_] = counters.get(ck_, 0) + 1
+            res.append(dict(fn=fn.name, line=stores[0].get("line"), kind="S", what="zeroing loop", root=root, role=role, off=repr(off), size="-", cap=repr(cap),
+                            lo=True, hi=True, dead=False, ordinal=counters[ck_], const_index=False, zero_fill=True, ends_at_cap=bool(eq)))
     return res, dict(equalities=[repr(e) for e in eqs], ranges=[repr(c[3]) for c in cands], loops=len(fn.loops))
 
 
